@@ -94,6 +94,15 @@ CLAIMED = {
          "predicates are evaluated on the implementation.",
          "4 C11", "Lean 4 proof (induction, geometric sums, limits) + differential correspondence; partial for Koyama/NFJC kernels"),
 }
+ 'C16': ("Lean theorems, value level (Model/Prism.lean): check_iff_complete, createPRISM_error_iff (ValueError exactly when a density, diameter, potential, closure, omega or the domain is missing, and then "
+         "nothing is built), snapshot_wiring (rank, kT, domain, per pair closure class/flag, closure sigma = Diameter table, potential sigma = own or default, closure.potential = U(r)/kT on the r grid, "
+         "omega = omega(k) rho_site on the k grid, symmetric, Fourier). Object level (Model/SysHeap.lean: potentials/closures are cells of an explicit store, PairTable assignment and deepcopy(sys) allocate, "
+         "PRISM.__init__ writes only its copies): step_isolated, later_edits_do_not_reach_prism and reachable_inv (induction over ARBITRARY operation sequences: no cell owned by an existing PRISM object ever "
+         "changes, System references and PRISM-owned cells stay disjoint), create_does_not_write_system (the System's meaning absSys is unchanged by createPRISM), sweep_equals_fresh (the PRISM created after any "
+         "history is createPRISM of the System's current meaning), create_refused_iff, and the negation witness aliased_create_changes_system for the variant that iterates the caller's table. The store model "
+         "runs in the driver and is compared after EVERY operation of random edit/create/solve histories with the hidden object state of the real System and of every PRISM object created so far.",
+         "4 C16", "Lean 4 proof (decision logic + object-store invariant by induction over operation histories) + differential correspondence"),
+}
 NA = {
  'C18': ("not applicable: the Cython extension pyPRISM/trajectory/Debyer.pyx cannot be built in this sandbox (the shipped Debyer.c was generated by Cython 0.28 and does not "
          "compile against CPython 3.12 / numpy 2.5; re-cythonising fails on np.int_t and nogil tuple construction), so there is no executable implementation to tie a Lean "
